@@ -322,6 +322,14 @@ static void tj_set_common(tjhandle t, const par_t *p)
   }
 }
 
+static const char *tjerr(tjhandle t)
+{
+  static char b[200]; char *q;
+  snprintf(b, sizeof(b), "%s", tj3GetErrorStr(t));
+  for (q = b; *q; q++) if (*q == ' ' || *q == '=' || *q == ':' || *q == '\n') *q = '_';
+  return b;
+}
+
 static int tj_compress(tjhandle t, int bits, const void *src, int w, int pitch, int h, int pf,
                        unsigned char **jb_, size_t *js)
 {
@@ -408,7 +416,7 @@ static void do_enc(const par_t *p)
         place(buf, bits, pic, w, h, pitch, bu, ps, off, nch);
         tj3Set(t, TJPARAM_BOTTOMUP, bu);
         rc = tj_compress(t, bits, buf, w, pitch, h, pf, &jbuf, &js);
-        if (rc) printf(" %s:%s+%d%s=ERR(%s)", grp, name, PADS[pi], bu ? "bu" : "td", tj3GetErrorStr(t));
+        if (rc) printf(" %s:%s+%d%s=ERR(%s)", grp, name, PADS[pi], bu ? "bu" : "td", tjerr(t));
         else printf(" %s:%s+%d%s=%lu.%016llx", grp, name, PADS[pi], bu ? "bu" : "td", (unsigned long)js,
                     (unsigned long long)fnv(FNV0, jbuf, js));
         tj3Free(jbuf);
@@ -507,10 +515,10 @@ static void do_dec(const par_t *p)
   /* source JPEGs: colour (from TJPF_RGB) and 4-component (from TJPF_CMYK) */
   src = malloc(((size_t)w * h * 4 + 8) * 2);
   place(src, bits, pic, w, h, w * 3, 0, 3, off3, 3);
-  if (tj_compress(t, bits, src, w, 0, h, TJPF_RGB, &jpg, &jlen)) { printf(" ERRsrc(%s)\n", tj3GetErrorStr(t)); goto done; }
+  if (tj_compress(t, bits, src, w, 0, h, TJPF_RGB, &jpg, &jlen)) { printf(" ERRsrc(%s)\n", tjerr(t)); goto done; }
   if (p->cspace < 0 || p->lossless) {
     place(src, bits, pic, w, h, w * 4, 0, 4, off4, 4);
-    if (tj_compress(t, bits, src, w, 0, h, TJPF_CMYK, &jpg4, &jlen4)) { printf(" ERRsrc4(%s)\n", tj3GetErrorStr(t)); goto done; }
+    if (tj_compress(t, bits, src, w, 0, h, TJPF_CMYK, &jpg4, &jlen4)) { tj3Free(jpg4); jpg4 = NULL; jlen4 = 0; }
   }
   if (!p->lossless && sfi > 0 && sfi < nsf) sf = sfs[sfi];
   ow = TJSCALED(w, sf); oh = TJSCALED(h, sf);
@@ -538,7 +546,7 @@ static void do_dec(const par_t *p)
         memcpy(orig, buf, n * ssz(bits));
         tj3Set(d, TJPARAM_BOTTOMUP, bu);
         rc = tj_decompress(d, bits, j, jl, buf, pitch, pf);
-        if (rc) printf(" %s:%s+%d%s=ERR(%s)", grp, name, PADS[pi], bu ? "bu" : "td", tj3GetErrorStr(d));
+        if (rc) printf(" %s:%s+%d%s=ERR(%s)", grp, name, PADS[pi], bu ? "bu" : "td", tjerr(d));
         else {
           judge(buf, orig, bits, ow, oh, pitch, bu, ps, off, nch, aoff, amax, n, &hh, &ba, &tc);
           printf(" %s:%s+%d%s=%016llx.%d.%d", grp, name, PADS[pi], bu ? "bu" : "td", (unsigned long long)hh, ba, tc);
